@@ -292,8 +292,9 @@ fn known_shape(case: &Case) -> Option<String> {
     if case.mode.physical {
         e.visit(&mut |n| {
             let hit = match n {
-                E::Similar { e, pat, .. } => matches!(**e, E::Cast { .. }) && matches!(**pat, E::Lit(_, V::Null)),
-                E::Bin(op, l, r) if op.is_regex() => matches!(**l, E::Cast { .. }) && matches!(**r, E::Lit(_, V::Null)),
+                // (the left operand may become a bare CAST through other rewrites)
+                E::Similar { pat, .. } => matches!(**pat, E::Lit(_, V::Null)),
+                E::Bin(op, _, r) if op.is_regex() => matches!(**r, E::Lit(_, V::Null)),
                 _ => false,
             };
             if hit && sig.is_none() {
@@ -315,7 +316,7 @@ fn known_shape(case: &Case) -> Option<String> {
                     E::Lit(_, v) => !v.is_null(),
                     _ => false,
                 };
-                lists.push((e.as_ref(), !needle_not_null || list.iter().any(|x| matches!(x, E::Lit(_, V::Null)))));
+                lists.push((e.as_ref(), !needle_not_null || list.iter().any(|x| !matches!(x, E::Lit(_, v) if !v.is_null()))));
             }
         });
         for (i, (a, an)) in lists.iter().enumerate() {
@@ -333,13 +334,9 @@ fn known_shape(case: &Case) -> Option<String> {
             E::Cast { e, to, .. } => to.is_int() && ty_of(e, &|i| tys[i as usize]) == Ty::Dec,
             _ => false,
         };
+        // anywhere: nested casts are unwrapped one after the other
         e.visit(&mut |n| {
-            let hit = match n {
-                E::Bin(op, l, r) if op.is_cmp() || matches!(op, Op::Distinct | Op::NotDistinct) => is_dec_to_int(l) || is_dec_to_int(r),
-                E::InList { e, .. } | E::Between { e, .. } => is_dec_to_int(e),
-                _ => false,
-            };
-            if hit && sig.is_none() {
+            if is_dec_to_int(n) && sig.is_none() {
                 sig = Some("unwrap-cast-decimal-to-int".to_string());
             }
         });
@@ -397,8 +394,17 @@ fn known_shape(case: &Case) -> Option<String> {
             f
         };
         e.visit(&mut |n| {
+            // boolean coalesce / nvl is first rewritten to a CASE
+            if let E::Func(Fun::Coalesce | Fun::Nvl, args) = n {
+                let boolean = args.first().map(|a| ty_of(a, &|i| tys[i as usize]) == Ty::Bool).unwrap_or(false);
+                if boolean && args.iter().skip(1).any(|a| may_fail(a)) && sig.is_none() {
+                    sig = Some("boolean-case-loses-laziness".to_string());
+                }
+            }
             if let E::Case { base: None, whens, els } = n {
-                let boolean = whens.first().map(|(_, t)| ty_of(t, &|i| tys[i as usize]) == Ty::Bool).unwrap_or(false);
+                // boolean CASE, or CASE over literal outputs (which `CASE .. END = literal` turns into a boolean CASE)
+                let boolean = whens.first().map(|(_, t)| ty_of(t, &|i| tys[i as usize]) == Ty::Bool).unwrap_or(false)
+                    || (whens.iter().all(|(_, t)| matches!(t, E::Lit(..))) && els.as_deref().map(|x| matches!(x, E::Lit(..))).unwrap_or(true));
                 if boolean {
                     let later = whens.iter().skip(1).any(|(w, _)| may_fail(w)) || whens.iter().any(|(_, t)| may_fail(t)) || els.as_deref().map(|x| may_fail(x)).unwrap_or(false);
                     if later && sig.is_none() {
@@ -425,6 +431,21 @@ fn known_shape(case: &Case) -> Option<String> {
         if sig.is_some() {
             return sig;
         }
+    }
+    // concat whose arguments may all fold to NULL literals
+    e.visit(&mut |n| {
+        if let E::Func(Fun::Concat, args) = n {
+            // safe only when some argument certainly survives NULL-dropping: a non-NULL literal, or a plain column
+            // (no NULL guarantee in play)
+            let null_guar = case.mode.guarantees.iter().any(|g| g.kind == GKind::Null);
+            let survives = |a: &E| matches!(a, E::Lit(_, v) if !v.is_null()) || (matches!(a, E::Col(_)) && !null_guar);
+            if !args.iter().any(survives) && sig.is_none() {
+                sig = Some("concat-all-null-args".to_string());
+            }
+        }
+    });
+    if sig.is_some() {
+        return sig;
     }
     // simplify_predicates: a conjunct `literal <op> column`
     if case.mode.predicates {
@@ -558,6 +579,69 @@ fn run_case(case: &Case) -> CaseResult {
             Ok(b) => b,
             Err(e) => return CaseResult::discard(format!("batch: {e}")),
         };
+        // NaN hygiene: arrow orders and equates NaNs by sign and payload, which no rewrite promises to keep. Rows on
+        // which a float operand of a comparison / IN / BETWEEN / simple CASE of the ORIGINAL is NaN are not compared.
+        let (full, full_batch) = {
+            let mut operands: Vec<&E> = vec![];
+            case.expr.visit(&mut |n| {
+                let is_f = |x: &E| ty_of(x, &|i| tys[i as usize]).is_float();
+                match n {
+                    E::Bin(op, l, r) if (op.is_cmp() || matches!(op, Op::Distinct | Op::NotDistinct)) && is_f(l) => {
+                        operands.push(l);
+                        operands.push(r);
+                    }
+                    E::InList { e, list, .. } if is_f(e) => {
+                        operands.push(e);
+                        operands.extend(list.iter());
+                    }
+                    E::Between { e, lo, hi, .. } if is_f(e) => operands.extend([e.as_ref(), lo.as_ref(), hi.as_ref()]),
+                    E::Case { base: Some(b), whens, .. } if is_f(b) => {
+                        operands.push(b);
+                        operands.extend(whens.iter().map(|(w, _)| w));
+                    }
+                    _ => {}
+                }
+            });
+            operands.retain(|o| !matches!(o, E::Lit(..) | E::Col(_)));
+            let mut keep = vec![true; full.rows];
+            for o in operands {
+                let Ok(ex) = coercer.coerce(to_expr_opt(o, &case.cols, true), &dfs) else { continue };
+                let Ok(p) = plan_expr(&ex, &dfs) else { continue };
+                let mark = |arr: &ArrayRef, base: usize, keep: &mut Vec<bool>| {
+                    for i in 0..arr.len() {
+                        if let Ok(ScalarValue::Float64(Some(v))) = ScalarValue::try_from_array(arr.as_ref(), i) {
+                            if v.is_nan() {
+                                keep[base + i] = false;
+                            }
+                        } else if let Ok(ScalarValue::Float32(Some(v))) = ScalarValue::try_from_array(arr.as_ref(), i) {
+                            if v.is_nan() {
+                                keep[base + i] = false;
+                            }
+                        }
+                    }
+                };
+                match eval_array(&p, &full_batch) {
+                    Ok(arr) => mark(&arr, 0, &mut keep),
+                    Err(_) => {
+                        for r in 0..full.rows {
+                            if let Ok(arr) = eval_array(&p, &full_batch.slice(r, 1)) {
+                                mark(&arr, r, &mut keep);
+                            }
+                        }
+                    }
+                }
+            }
+            if keep.iter().all(|k| *k) {
+                (full, full_batch)
+            } else {
+                labels.insert("rows:nan-in-comparison-excluded".into());
+                let t = full.filter_rows(&keep);
+                match make_batch(&case.cols, &t, &schema, &case.shape) {
+                    Ok(b) => (t, b),
+                    Err(e) => return CaseResult::discard(format!("batch: {e}")),
+                }
+            }
+        };
         let has_col = !used.is_empty();
         let mut changed_any = false;
         let mut compared_any = false;
@@ -581,6 +665,14 @@ fn run_case(case: &Case) -> CaseResult {
             };
             labels.insert(format!("guarantee:{:?}", g.kind));
             g_exprs.push((col, ni));
+        }
+        if guars.iter().any(|g| g.kind == GKind::Null) {
+            let mut empty_in = false;
+            case.expr.visit(&mut |n| empty_in |= matches!(n, E::InList { list, .. } if list.is_empty()));
+            if empty_in {
+                // a column guaranteed NULL becomes a NULL literal; `NULL IN ()` has no SQL meaning (see egen.rs)
+                return CaseResult::discard("empty IN list under a NULL guarantee").labels(labels);
+            }
         }
         let (table_a, batch_a) = if guars.is_empty() {
             (None, full_batch.clone())
@@ -677,7 +769,8 @@ fn run_case(case: &Case) -> CaseResult {
 
         // ---- C. simplify_predicates on the conjuncts of a boolean root
         if case.mode.predicates && orig_type == arrow::datatypes::DataType::Boolean {
-            let parts = datafusion_expr::utils::split_conjunction_owned(orig.clone());
+            // (the evaluable form: `coalesce` cannot be evaluated before ExprSimplifier has rewritten it)
+            let parts = datafusion_expr::utils::split_conjunction_owned(orig_eval.clone());
             if parts.len() >= 2 {
                 labels.insert("mode:simplify_predicates".into());
                 match simplify_predicates(parts.clone()) {
